@@ -25,6 +25,27 @@ def judge_names(req, rr):
     return False, 'no observation (exit %s) %s' % (rr['exit'], rr['tail'][-300:])
 
 
+def judge_api_names(req, rr):
+    kind = req['kind']
+    seg = b'/topics/' if kind == 'topic' else b'/subscriptions/'
+    for o in rr['obs']:
+        if o.get('scenario') != 'api_parse_name':
+            continue
+        if o.get('invalid_utf8'):
+            return False, 'not a string'
+        if not o.get('accepted'):
+            return False, 'the server rejects the name with INVALID_ARGUMENT'
+        s = o['input'].encode()
+        m = re.fullmatch(rb'projects/([^/]+)' + re.escape(seg) + rb'(.+)', s, re.S)
+        if m is None:
+            return True, 'the server accepts %r (answer: %s), which is not projects/<P>%s<ID>' % (o['input'], o.get('echo') or o.get('code'), seg.decode())
+        want = b'projects/' + m.group(1) + seg + m.group(2).strip(b'/')
+        if o.get('echo') is not None and o['echo'].encode() != want:
+            return True, 'the server accepts %r as %r (canonical form would be %r)' % (o['input'], o['echo'], want.decode('utf-8', 'replace'))
+        return False, 'accepted and well-formed'
+    return False, 'no observation (exit %s) %s' % (rr['exit'], rr['tail'][-300:])
+
+
 def judge_push_attributes(req, rr):
     for o in rr['obs']:
         if o.get('scenario') == 'push_attributes':
@@ -75,4 +96,4 @@ def judge_actor_deadlock(req, rr):
     return False, 'no observation (exit %s) %s' % (rr['exit'], rr['tail'][-300:])
 
 
-JUDGES = {'actor_script': judge_actor_script, 'actor_deadlock': judge_actor_deadlock, 'delete_releases': judge_delete_releases, 'half_created': judge_half_created, 'names': judge_names, 'push_attributes': judge_push_attributes, 'streaming_bad_modify': judge_streaming_bad_modify}
+JUDGES = {'actor_script': judge_actor_script, 'actor_deadlock': judge_actor_deadlock, 'delete_releases': judge_delete_releases, 'half_created': judge_half_created, 'names': judge_names, 'api_names': judge_api_names, 'push_attributes': judge_push_attributes, 'streaming_bad_modify': judge_streaming_bad_modify}
